@@ -15,3 +15,6 @@ for id in $ids; do
   echo "$id ($pid): $v rc=$rc :: $(echo "$out" | grep -E '^VIOLATION|^UNDECIDED' | head -3 | tr '\n' ' ')"
   echo "$out" > /tmp/seedrun_$id.log
 done
+# evidence files were rewritten while changes were applied: regenerate them on the clean tree
+git -C /repo checkout -q -- .
+tools/run_all.sh quick > /tmp/run_all_after_seeds.out 2>&1
